@@ -85,12 +85,29 @@ def run(chk):
     items_s = Slicer(sym, sql, scfg.subject, uc).slice(scfg.func.body)
     reorder = None
     for it in items_s:
-        if isinstance(it, Cond) and "left_col_names != right_col_names" in norm(it.test):
+        # the branch guarded by "left names != right names" (either side may be an inlined list of `.name`s)
+        if isinstance(it, Cond) and isinstance(it.test, ast.Compare) and len(it.test.ops) == 1 and isinstance(it.test.ops[0], ast.NotEq) and (
+            "col_names" in norm(it.test) or ".name for" in norm(it.test)
+        ):
             reorder = it
     ok = False
     if reorder is not None:
         body = " ".join(norm(s) for s in reorder.body)
-        ok = "for name in left_col_names" in body and "verbs.Select(" in body and "cls.compile_ast(right_ast" in body and "right_cache.name_to_uuid[name]" in body
+        # structural: a loop over the left names looks each one up in the right cache; the right child is wrapped in a
+        # Select over the collected columns and compiled again
+        left_names = norm(reorder.test.left)
+        loops = [n for s_ in reorder.body for n in ast.walk(s_) if isinstance(n, ast.For) and norm(n.iter) == left_names]
+        by_name = any(
+            isinstance(x, ast.Subscript) and norm(x.value).endswith("name_to_uuid") and norm(x.slice) == norm(lp.target)
+            for lp in loops for x in ast.walk(lp)
+        )
+        sel = [c for s_ in reorder.body for c in calls_in(s_) if (dotted(c.func) or "").endswith("Select") and c.args and norm(c.args[0]).endswith(".right")]
+        recompiled = any((dotted(c.func) or "").endswith("compile_ast") for s_ in reorder.body for c in calls_in(s_))
+        rebound = any(
+            isinstance(s_, ast.Assign) and isinstance(s_.targets[0], ast.Tuple) and [norm(e) for e in s_.targets[0].elts][:2] == ["right_table", "right_query"]
+            for s_ in reorder.body
+        )
+        ok = bool(loops) and by_name and bool(sel) and recompiled and rebound
     chk.ob("R1", sql, scfg.func, "sql Union: if the name lists differ the right side is re-selected in the order of the left names", ok,
            "SQL union no longer re-orders the right operand by the left column names: UNION matches columns by position")  # fmt: skip
     src_s = " ".join(norm(st) for st, _ in flat(items_s))
